@@ -779,7 +779,16 @@ def symmetric_rcm(A):
     >>> # plt.spy(symmetric_rcm(S),marker='.')
 
     """
-    _dummy_root, order, _dummy_level = pseudo_peripheral_node(A)
+    # order each connected component separately (a single breadth first
+    # search only reaches the component of its root)
+    components = connected_components(A)
+    order = np.empty(A.shape[0], dtype=A.indptr.dtype)
+    offset = 0
+    for component in range(components.max() + 1):
+        nodes = np.where(components == component)[0]
+        _dummy_root, suborder, _dummy_level = pseudo_peripheral_node(A[nodes, :][:, nodes])
+        order[offset:offset + len(nodes)] = nodes[suborder]
+        offset += len(nodes)
 
     p = order[::-1]
 
